@@ -83,6 +83,21 @@ def inputs(rng, sc, tier):
         m = arc.Member(level=lvl, method=meth, name=(b"ReadMe" if (lvl == 1 and k % 2) else b""), payload=data, time=stamp if lvl >= 2 else arc.dos_time(2001, 9, 9, 1, 46, 40),
                        os=osb, exts=exts)
         put("shape", m.bytes() + arc.unix_file(b"after/second.txt", b"2nd", level=2).bytes() + b"\0")
+    # level 0 / 1 headers whose name length sits on or next to what the header length leaves room for (checksum consistent): the fields
+    # behind the name (CRC, OS type, next-header size) are read at offsets computed from it
+    body = bytes((i * 7 + 3) & 0xFF for i in range(300))
+    for lvl in (0, 1):
+        for hl in list(range(22, 256, 7 if tier == "quick" else 1)) + [22, 23, 24, 25, 26, 27, 255, 254]:
+            for pl in range(max(0, hl - 27), hl - 18):
+                if pl > 255:
+                    continue
+                h = bytearray(b"\0\0-lh0-" + b"\x04\0\0\0" + b"\x04\0\0\0" + b"\0\0\0\0" + b"\x20" + bytes([lvl, pl]) + body)
+                h[0] = hl
+                if lvl == 1 and 2 + hl <= len(h) and hl >= 2:
+                    h[hl] = 0; h[hl + 1] = 0
+                h[1] = sum(h[2:2 + hl]) & 0xFF
+                # (the input ends with the header: nothing behind it that a read past its end could quietly pick up)
+                put("lengrid", bytes(h[:2 + hl + (2 if lvl == 1 else 0)]) + (b"data" if (hl + pl) % 2 else b""))
     # valid generated archives (members of every kind) bit-flipped in the data area
     for i in range(30 if tier == "quick" else 600):
         raw = bytearray(b"".join(m.raw() for m in RG.random_archive(rng, nmax=5)) + b"\0")
